@@ -116,6 +116,8 @@ type scen struct {
 	// kept and compared afterwards.
 	cold     bool
 	deferred map[deferredResult]int
+	nViol    int  // violations reported by this scenario
+	sticky   bool // cold scenario: the probes failed right after the concurrent phase
 }
 
 type deferredResult struct {
@@ -156,7 +158,7 @@ func (sc *scen) checkJob(j *evalJob, got string, g int) {
 var jobKinds = []string{jobInterp, jobImport, jobSink, jobDebug}
 
 func reps(c *core.Ctx) int {
-	n := c.Pick(240, 2000)
+	n := c.Pick(240, 1200)
 	if c.Race {
 		n /= 4
 	}
@@ -313,6 +315,7 @@ func (sc *scen) once(key string) bool {
 		return false
 	}
 	sc.reported[key] = true
+	sc.nViol++
 	return true
 }
 
@@ -349,11 +352,16 @@ func (sc *scen) reportJobDiff(j *evalJob, got string, g int) {
 	key := "wrong-result:eval-" + j.kind
 	if strings.HasPrefix(got, "PANIC ") {
 		key = strings.TrimSpace(strings.SplitN(strings.TrimPrefix(got, "PANIC "), "\n", 2)[0])
-	} else if sc.ifFor && strings.Count(got, "Parse error") > strings.Count(j.want, "Parse error") &&
-		(strings.Contains(got, "({)") || strings.Contains(got, "Unexpected term") || strings.Contains(got, "Unexpected end")) {
-		// a run-time parse failed although the same text parsed before: with
-		// if/for parses running concurrently this is the swapped '{' entry
-		key = "wrong-result:brace-meaning"
+	} else if sc.ifFor && strings.Count(got, "Parse error") != strings.Count(j.want, "Parse error") {
+		// a run-time parse failed in one of the two runs only: with if/for
+		// parses running concurrently this is the swapped '{' entry
+		worse := got
+		if strings.Count(j.want, "Parse error") > strings.Count(got, "Parse error") {
+			worse = j.want
+		}
+		if strings.Contains(worse, "({)") || strings.Contains(worse, "Unexpected term") || strings.Contains(worse, "Unexpected end") {
+			key = "wrong-result:brace-meaning"
+		}
 	}
 	if !sc.once(key) {
 		return
@@ -490,6 +498,14 @@ func (sc *scen) run() {
 	}
 	close(start)
 	wg.Wait()
+	if sc.cold && !probesSane() {
+		// the parser no longer parses the (valid) probe texts although every
+		// goroutine has returned: no trustworthy sequential results can be
+		// computed in this process any more; Run reports the sticky state
+		sc.sticky = true
+		sc.cold = false
+		c.Inconclusive("results of the cold-start scenario were not compared: the parser state was already corrupted when its concurrent phase ended", sc.stream, sc.idx, nil)
+	}
 	if sc.cold {
 		sc.baseline()
 		sc.cold = false
@@ -582,15 +598,26 @@ func probeNow() []string {
 	return res
 }
 
+func probesSane() bool { return probesSaneList(probeNow()) }
+
+func probesSaneList(l []string) bool {
+	for _, r := range l {
+		if isErrorResult(r) || !hasTree(r) {
+			return false
+		}
+	}
+	return true
+}
+
 // Run is the check.
 func Run(c *core.Ctx) {
 	c.Note("rule", "scenario = seeded set of 4..14 generated program texts (assignments, expressions, list/map literals incl. nested and empty ones, func/sink/try/mutex blocks, imports from a memory locator, comments, interpolated strings; mixed stream additionally if/elif/else and for with nested guards; 1 in 4 texts carries an injected syntax error: dropped closing brace, stray token, unclosed string, unfinished map, error in the middle) plus 3 importable files; sequential results first (in the first scenario of each process: afterwards, so that lazily initialised state is first touched concurrently), then 2..16 goroutines: parsing goroutines (Parse / ParseWithRuntime on one shared provider / +Validate, N parses each over the texts) next to evaluation goroutines (interpolating strings, importing files, sinks on pool workers fed with 8..24 events, debugger breakpoint + inject loop). canary stream = 4 fixed texts (if, for, map literals), 2..4 parsing goroutines. noif stream: no if/for anywhere. non-trivial/distinct = distinct (text, parse mode) pairs and distinct evaluation jobs of scenarios in which at least two parses were observed in flight simultaneously")
 	var probeWant []string // taken after the first (cold) scenario of the process
 	first := true
 
-	nNoif := c.Pick(80, 192)
+	nNoif := c.Pick(80, 160)
 	nCanary := c.Pick(32, 64)
-	nMixed := c.Pick(80, 192)
+	nMixed := c.Pick(80, 160)
 	type plan struct {
 		stream string
 		n      int
@@ -622,16 +649,32 @@ func Run(c *core.Ctx) {
 				continue
 			}
 			c.Take(p.stream, idx)
-			sc := buildScenario(c, p.stream, idx)
-			sc.cold, sc.deferred = first, map[deferredResult]int{}
-			c.Begin(0, p.stream, idx, sc.describe())
-			t0 := time.Now()
-			sc.run()
-			if os.Getenv("VH_C13_TIMING") != "" {
-				fmt.Fprintf(os.Stderr, "%s:%d %v roles=%v\n", p.stream, idx, time.Since(t0), sc.roles)
+			var sc *scen
+			var got []string
+			// a replay repeats the scenario (same texts, same roles) until a
+			// violation shows or 30 schedules have been tried
+			for try := 0; try < 30; try++ {
+				sc = buildScenario(c, p.stream, idx)
+				sc.cold, sc.deferred = first, map[deferredResult]int{}
+				c.Begin(0, p.stream, idx, sc.describe())
+				t0 := time.Now()
+				sc.run()
+				if os.Getenv("VH_C13_TIMING") != "" {
+					fmt.Fprintf(os.Stderr, "%s:%d %v roles=%v\n", p.stream, idx, time.Since(t0), sc.roles)
+				}
+				c.End(0)
+				got = probeNow()
+				if !c.Replay() || sc.nViol > 0 || sc.sticky || first && !probesSaneList(got) {
+					break
+				}
+				if probeWant != nil && fmt.Sprint(got) != fmt.Sprint(probeWant) {
+					break
+				}
+				if first {
+					first = false
+					probeWant = got
+				}
 			}
-			c.End(0)
-			got := probeNow()
 			if first {
 				// the probes are valid programs: whatever ran before, a
 				// sequential parse of them yields a tree
